@@ -506,6 +506,26 @@ def unbalanced(kind: str, form: str) -> tuple[bytes, dict]:
     raise ValueError(kind)
 
 
+# ------------------------------------------------------------------------------------------------------------ nesting deeper than the interpreter's recursion limit
+DEEP_LEVELS = {"d300": 300, "d1500": 1500, "d3000": 3000, "d5000": 5000}
+
+
+def deep_markup(kind: str, variant: str) -> tuple[bytes, dict]:
+    """HTML / MHTML whose elements nest ``n`` levels deep (generated <div>/<span> soup): far below (300) or far above (1500+) the default
+    recursion limit, never near it, so that the outcome does not depend on how deep the caller's own stack happens to be."""
+    n = DEEP_LEVELS[variant]
+    tag = f"isodeep{kind}{variant}"
+    opens = "".join("<div>" if i % 3 else "<span>" for i in range(n))
+    closes = "".join("</div>" if i % 3 else "</span>" for i in reversed(range(n)))
+    doc = f"<html><head><title>t{tag}</title></head><body><p>{tag}</p>{opens}deep {tag}{closes}<p>end{tag}</p></body></html>"
+    if kind == "html":
+        return doc.encode(), {"has": [], "not": []}
+    raw = ("From: <Saved by verif>\r\nSubject: " + tag + "\r\nMIME-Version: 1.0\r\nContent-Type: multipart/related; type=\"text/html\"; boundary=\"----isoDEEP\"\r\n\r\n"
+           "------isoDEEP\r\nContent-Type: text/html; charset=utf-8\r\nContent-Transfer-Encoding: 8bit\r\nContent-Location: http://iso.example/d.html\r\n\r\n"
+           + doc + "\r\n------isoDEEP--\r\n").encode("ascii")
+    return raw, {"has": [], "not": []}
+
+
 # ------------------------------------------------------------------------------------------------------------ names only the MIME fallback can decide
 # extensions no routing table of a document library is likely to list, that some MIME database may know (as text, as something else, or not at all)
 MIME_ONLY_EXTS = ["log", "text", "conf", "cfg", "ini", "lst", "asc", "diff", "patch", "py", "c", "h", "bat", "ksh", "pl", "tex", "rst", "yaml", "yml", "toml",
@@ -615,6 +635,8 @@ FAMILIES = {
     "unb-epub-last": ("epub", lambda v: unbalanced("epub-last", v), ".epub", UNBALANCED_FORMS),
     "unb-html": ("html", lambda v: unbalanced("html", v), ".html", UNBALANCED_FORMS),
     "unb-mhtml": ("mhtml", lambda v: unbalanced("mhtml", v), ".mhtml", UNBALANCED_FORMS),
+    "deep-html": ("html", lambda v: deep_markup("html", v), ".html", ["d300", "d1500", "d3000", "d5000"]),
+    "deep-mhtml": ("mhtml", lambda v: deep_markup("mhtml", v), ".mhtml", ["d300", "d1500", "d3000"]),
     "zip-mime": ("zip", mime_members, ".zip", ["zipA", "zipB"]),
     "tar-mime": ("zip", mime_members, ".tar", ["tarA", "tarB"]),
     "route": ("route", route_names, ".names", ["mime-only", "mixed"]),
@@ -642,6 +664,7 @@ def feature(src, kind: str = "") -> str:
     fam, var = src[1], str(src[2]).split(":")[0]
     fixed = {"rtf-cp": "rtf-cp", "epub-multi": "epub-first-match-candidates", "html-multi": "html-first-match-candidates", "plain": "plain",
              "zip-mime": "archive-mime-fallback-members", "tar-mime": "archive-mime-fallback-members", "route": "router-mime-fallback-names",
+             "deep-html": "html-deep-nesting", "deep-mhtml": "mhtml-deep-nesting",
              "unb-epub": "epub-unclosed-markup", "unb-epub-last": "epub-unclosed-markup", "unb-html": "html-unclosed-markup", "unb-mhtml": "mhtml-unclosed-markup"}
     if fam in fixed:
         return fixed[fam]
@@ -684,6 +707,9 @@ def groups() -> list[dict]:
         g("html:unclosed-markup/parser-state", "unb-html", UNBALANCED_FORMS),
         g("mhtml:unclosed-markup/parser-state", "unb-mhtml", UNBALANCED_FORMS),
     ]
+    out.append({"name": "markup:deep-nesting/interpreter-recursion-limit",
+                "members": [("html", ["iso", "deep-html", v]) for v in FAMILIES["deep-html"][3]] + [("mhtml", ["iso", "deep-mhtml", v]) for v in FAMILIES["deep-mhtml"][3]]
+                + [("html", ["iso", "html", "cpA"]), ("epub", ["iso", "epub", "A"])]})
     # names only the MIME fallback decides, as archive members and as routing questions, next to the documents whose (lazily imported)
     # extractors could register such names: the answer must not depend on what was extracted before
     lazy = [("txt", ["iso", "plain", "txt"]), ("txt", ["iso", "plain", "csv"]), ("html", ["iso", "html", "cpA"]), ("xlsx", ["iso", "xlsx", "sstA"]),
